@@ -38,7 +38,7 @@ ASSUMPTIONS = ["one history in four holds integer-valued series and then also us
                "container independence is compared with rel. tol 1e-9 (Python 3.12 sums Python floats with compensation but NumPy scalars without: list and ndarray inputs differ in the last bit); history independence is compared bit for bit",
                "multi-iteration Python-engine averaging (dba_loop with max_it > 1, KMeans with use_c=False) can amplify that last bit through a tie between warping paths: for those ops the canonical twin keeps the scalar class of the items (plain lists for list / array.array items, contiguous ndarrays otherwise)", "a call that RAISES for a container kind it does not accept (plain lists handed to the C entry points, ...) is permitted if inputs stay untouched and "
                "the fresh same-representation twin raises the same way; a call that RETURNS must return the canonical value",
-               "psi is kept <= window and <= the shortest series (outside that the C kernels write beyond their buffer, which is C08's subject)",
+               "psi is kept within every series (wider is outside what the library accepts: the Python engine raises, the C warping-paths kernels abort the process), independent of the window",
                "KMeans is seeded through the public generators; parallel=False everywhere (parallel routes are C07 / C16)"]
 
 REPS = ["list", "tuple", "array", "nd", "strided", "neg", "col", "row", "ovl"]
@@ -85,8 +85,9 @@ def gen_history(st):
         if rng.below(3) == 0:
             o["penalty"] = rng.choice([0.1, 0.5, 1.0])
         if rng.below(4) == 0:
-            p = rng.below(min(minlen - 1, 2) + 1)     # psi == series length allows an empty alignment: a degenerate combination
-            p = p if "window" not in o else min(p, o["window"])
+            # psi stays within every series (psi == length of a 1-D series allows an empty alignment: a degenerate combination),
+            # whatever the window
+            p = rng.below(min(minlen - 1, 3, min(len(x) for x in nser)) + 1)
             o["psi"] = p if rng.below(2) else [p, rng.below(p + 1), rng.below(p + 1), p]      # one integer or a 4-element list
         if rng.below(5) == 0:
             o["max_step"] = rng.choice([1.5, 2.5])
@@ -105,7 +106,9 @@ def gen_history(st):
         if kind in ("matrix", "matrix_i64") and len({len(series[i]) for i in idxs}) != 1:
             kind = "list_views" if kind == "matrix" else "list_i64"
         conts.append({"kind": kind, "idxs": idxs, "reps": [rng.choice(REPS[3:]) for _ in idxs]})
-    setup = {"series": series, "nseries": nser, "dicts": dicts, "conts": conts, "overlap": overlap, "intvals": intvals}
+    wp_ = 1 + rng.below(max(len(x) for x in series) + 1)
+    setup = {"series": series, "nseries": nser, "dicts": dicts, "conts": conts, "overlap": overlap, "intvals": intvals,
+             "wide_psi": [wp_, rng.below(wp_ + 1), rng.below(wp_ + 1), wp_]}
 
     def ref(f32=True):
         if intvals and rng.below(3) == 0:
@@ -131,6 +134,10 @@ def gen_history(st):
                 ra = ref()
                 rb_ = list(ra) if rng.below(10) == 0 else ref()       # sometimes the SAME object as both arguments
                 programs[s].append({"op": "pair", "fn": rng.choice(PAIR_FNS), "a": ra, "b": rb_, "opts": dref(), "use_c": bool(rng.below(2))})
+                if programs[s][-1]["fn"] in ("distance", "distance_fast") and rng.below(6) == 0:
+                    # psi given as ONE caller-owned list object, reused by every such call of the history, and possibly wider than
+                    # some series (what the library does then - raise, clamp - is its choice; what it must not do is remember it)
+                    programs[s][-1]["wide_psi"] = True
             elif k < 18:
                 programs[s].append({"op": "npair", "fn": rng.choice(NPAIR_FNS), "a": nref(), "b": nref(), "opts": dref(), "use_c": bool(rng.below(2))})
             elif k < 20:
@@ -239,6 +246,7 @@ class Pool:
         self.dicts = copy.deepcopy(setup["dicts"])
         self.conts = [self._cont(ci, c) for ci, c in enumerate(setup["conts"])]
         self.objs = {}
+        self.wide_psi = list(setup.get("wide_psi", [0, 0, 0, 0]))     # the caller's psi list: one object for all calls that use it
         self.scratch = {}        # (rep, length, slot) -> [buffer the caller owns and refills in place, values last written]
         self.snap0 = self.snapshot()
 
@@ -517,7 +525,10 @@ def run_op(pool, op, alone):
         if kind == "pair":
             a = pool.items[tuple(op["a"])]
             b = pool.items[tuple(op["b"])]
-            return _pair_call(op["fn"], a, b, _opts(pool, op["opts"]), op["use_c"])
+            o = _opts(pool, op["opts"])
+            if op.get("wide_psi"):
+                o = dict(o, psi=pool.wide_psi)
+            return _pair_call(op["fn"], a, b, o, op["use_c"])
         if kind == "npair":
             a = pool.nitems[tuple(op["a"])]
             b = pool.nitems[tuple(op["b"])]
